@@ -65,6 +65,7 @@ type c14Fn struct {
 	Obj    string            `json:"obj"`
 	Wide   bool              `json:"wide"` // the function belongs to one package or is an instantiation: one program-wide name
 	Names  map[string]string `json:"names"`
+	Bound  map[string]string `json:"bound"`
 	Lost   []string          `json:"lost"` // compiled in that package by the rules below, but the name is not defined in its module
 }
 
@@ -328,6 +329,9 @@ func c14CompileSet(goProg *ssa.Program, pkg *ssa.Package) map[*ssa.Function]bool
 		if f.TypeParams().Len() > 0 && len(f.TypeArgs()) == 0 {
 			return
 		}
+		if len(f.Blocks) == 0 && f.Synthetic == "" {
+			return // a declaration without body (bound by a directive): nothing to emit
+		}
 		set[f] = true
 		for _, a := range f.AnonFuncs {
 			visit(a)
@@ -383,6 +387,7 @@ func c14Run(p *c14Prog) (out c14Out) {
 		ssa   *ssa.Package
 	}
 	var pkgs []*built
+	goProg.CreatePackage(types.Unsafe, nil, nil, true)
 	for _, sp := range p.Pkgs {
 		b := &built{spec: sp}
 		for _, f := range sp.Files {
@@ -486,7 +491,7 @@ func c14Run(p *c14Prog) (out c14Out) {
 	sort.Slice(list, func(i, j int) bool { return list[i].String() < list[j].String() })
 	descSeen := map[string]bool{}
 	for _, fn := range list {
-		rec := c14Fn{Fn: fn.String(), Syn: fn.Synthetic, Consts: c14Consts(fn), Names: map[string]string{}}
+		rec := c14Fn{Fn: fn.String(), Syn: fn.Synthetic, Consts: c14Consts(fn), Names: map[string]string{}, Bound: map[string]string{}}
 		if fn.Pkg != nil {
 			rec.Pkg = fn.Pkg.Pkg.Path()
 		}
@@ -522,6 +527,12 @@ func c14Run(p *c14Prog) (out c14Out) {
 				}()
 				_, name, ftype := ctx.funcName(fn)
 				if ftype != goFunc {
+					return
+				}
+				if len(fn.Blocks) == 0 && fn.Synthetic == "" {
+					if symset[path][name] {
+						rec.Bound[path] = name // a body-less declaration: the symbol the package's module refers to
+					}
 					return
 				}
 				if compiled[path][fn] && defset[path][name] {
